@@ -8,7 +8,13 @@
 #include <stdio.h>
 #include <inttypes.h>
 
-/* the only external symbol pfn.c needs under ENABLE_DEBUG */
+/* bit helpers of bitmap.c: the library's own (its symbols carry the private prefix) */
+void _kdumpfile_priv_set_bits(unsigned char *buf, size_t start, size_t end);
+void _kdumpfile_priv_clear_bits(unsigned char *buf, size_t start, size_t end);
+void set_bits(unsigned char *buf, size_t start, size_t end) { _kdumpfile_priv_set_bits(buf, start, end); }
+void clear_bits(unsigned char *buf, size_t start, size_t end) { _kdumpfile_priv_clear_bits(buf, start, end); }
+
+/* the only other external symbol pfn.c needs under ENABLE_DEBUG */
 kdump_status status_err(kdump_errmsg_t *err, kdump_status status, const char *msgfmt, ...) { return status; }
 
 static unsigned char store[1 << 16] __attribute__((aligned(8)));
@@ -49,6 +55,33 @@ int main(void)
 				printf(" %" PRIu64 ":%" PRIu64 ":%" PRIu64, (uint64_t)pfm.regions[i].pfn, (uint64_t)pfm.regions[i].cnt, (uint64_t)pfm.regions[i].pos);
 			putchar('\n');
 			free(pfm.regions);
+		} else if (!strncmp(line, "maps ", 5)) {
+			/* maps <pfn> <first> <last> s:e:rpfn:cnt ...   split-file maps (one region each) in the given order:
+			 * sort_pfn_file_maps, then find_mapped_pfn / find_unmapped_pfn at pfn and get_pfn_map_bits(first,last) */
+			struct pfn_file_map maps[16]; struct pfn_region rg[16]; size_t n = 0, i; char *p = line + 5;
+			uint64_t q = strtoull(p, &p, 10), first = strtoull(p, &p, 10), last = strtoull(p, &p, 10), a, b, c, d;
+			int k; kdump_pfn_t f; bool ok;
+			unsigned char bits[64];
+			while (n < 16 && sscanf(p, " %" SCNu64 ":%" SCNu64 ":%" SCNu64 ":%" SCNu64 "%n", &a, &b, &c, &d, &k) == 4) {
+				memset(&maps[n], 0, sizeof maps[n]);
+				rg[n].pfn = c; rg[n].cnt = d; rg[n].pos = 0;
+				maps[n].regions = d ? &rg[n] : NULL; maps[n].nregions = d ? 1 : 0; maps[n].fidx = n;
+				maps[n].start_pfn = a; maps[n].end_pfn = b;
+				++n; p += k;
+			}
+			sort_pfn_file_maps(maps, n);
+			printf("> maps");
+			for (i = 0; i < n; ++i) printf(" %" PRIu64, (uint64_t)maps[i].end_pfn);
+			f = q; ok = find_mapped_pfn(maps, n, &f);
+			if (ok) printf(" set=%" PRIu64, (uint64_t)f); else printf(" set=-");
+			printf(" clr=%" PRIu64, (uint64_t)find_unmapped_pfn(maps, n, q));
+			if (last >= first && (last - first) / 8 < sizeof bits) {
+				memset(bits, 0xA5, sizeof bits);
+				get_pfn_map_bits(maps, n, first, last, bits);
+				printf(" bits=");
+				for (i = 0; i <= (last - first) / 8; ++i) printf("%02x", bits[i]);
+			}
+			putchar('\n');
 		} else
 			puts("> bad-op");
 	}
